@@ -525,6 +525,10 @@ func c19Run(c *fw.Ctx, b fw.Batch) {
 			pos := 1 + r.Intn(9)
 			total := pos + r.Intn(4)
 			kind := markers[r.Intn(len(markers))]
+			if r.Intn(10) == 0 {
+				// the part's file name goes on in a legacy code page (CP932 / GBK / Latin-1 bytes)
+				kind = strings.SplitN(kind, "/", 2)[0] + "/" + []string{"\x95\xb6\x8f\x91.xml", "caf\xe9.xml", "\xce\xc4\xb5\xb5.xml"}[r.Intn(3)]
+			}
 			for len(es) < total+1 {
 				if len(es) == pos {
 					add(kind)
